@@ -346,3 +346,26 @@ def _pure_path(e) -> bool:
     if isinstance(e, ast.Attribute):
         return _pure_path(e.value)
     return False
+
+
+class _Fold(ast.NodeTransformer):
+    def __init__(self, resolver):
+        self.resolver = resolver
+
+    def visit_Attribute(self, node):
+        v = self.resolver(node)
+        if v is not None and isinstance(v, (int, float, str)) and not isinstance(v, bool):
+            return ast.copy_location(ast.Constant(value=v), node)
+        return self.generic_visit(node)
+
+    def visit_Name(self, node):
+        if isinstance(node.ctx, ast.Load):
+            v = self.resolver(node)
+            if v is not None and isinstance(v, (int, float, str)) and not isinstance(v, bool):
+                return ast.copy_location(ast.Constant(value=v), node)
+        return node
+
+
+def fold_consts(e: ast.expr, resolver) -> ast.expr:
+    """Replace references to known module constants (cd.MT_X, ALL_MESSAGE_TYPES) by literals."""
+    return ast.fix_missing_locations(_Fold(resolver).visit(_clone(e)))
